@@ -334,6 +334,10 @@ pub struct FsFaults {
     pub enospc_after_bytes: Option<u64>,
     pub rename_errno: Option<i32>,
     pub fsync_errno: Option<i32>,
+    /// Every open() for reading an existing file fails with this errno.
+    pub open_read_errno: Option<i32>,
+    /// Every read() of a simulated file fails with this errno.
+    pub read_errno: Option<i32>,
 }
 
 #[derive(Clone, Debug)]
@@ -468,6 +472,12 @@ impl SimFs {
                     return Err(libc::EEXIST);
                 }
                 let is_dir = self.disk.inodes[&ino].is_dir;
+                if !is_dir && !wants_write {
+                    if let Some(e) = self.faults.open_read_errno {
+                        self.fire("open_read_error");
+                        return Err(e);
+                    }
+                }
                 if is_dir && wants_write {
                     return Err(libc::EISDIR);
                 }
@@ -534,6 +544,10 @@ impl SimFs {
         };
         if flags & libc::O_ACCMODE == libc::O_WRONLY {
             return Err(libc::EBADF);
+        }
+        if let Some(e) = self.faults.read_errno {
+            self.fire("read_error");
+            return Err(e);
         }
         let n = self.pread_ino(ino, off, buf)?;
         self.ofds.get_mut(&ofd).unwrap().off += n as u64;
